@@ -271,7 +271,7 @@ Section Loop.
                     else map_offset_loop (S n) D o left mid (left + (mid - left) / 2)) = Ok (a, l')
                    /\ left <= l' /\ l' <= a) as Lower.
       { intro Hlow. destruct (N.ltb_spec mid left); [lia|].
-        apply IH; try lia. unfold mid. lia. }
+        apply IH; try lia; try (unfold mid; lia). }
       destruct (N.compare_spec mid (o + dv_card_below D (mid + 1))) as [Heq|Hlt|Hgt].
       + destruct (dv_contains D mid) eqn:Hd; cbn [negb].
         * apply Lower. apply (step_go_lower D ND o a Hans). right. split; assumption.
@@ -280,8 +280,7 @@ Section Loop.
       + pose proof (step_less D ND o a Hans mid Hlt) as Hma.
         destruct (N.eqb_spec left (mid + 1)); [lia|].
         destruct (N.ltb_spec right (mid + 1)); [lia|].
-        destruct (IH (mid + 1) right) as [l' [E [B1 B2]]]; try lia.
-        { unfold mid. lia. }
+        destruct (IH (mid + 1) right) as [l' [E [B1 B2]]]; try lia; try (unfold mid; lia).
         exists l'. split; [exact E | lia].
       + apply Lower. apply (step_go_lower D ND o a Hans). left. exact Hgt.
   Qed.
@@ -305,8 +304,8 @@ Section Loop.
     - pose proof (step_less D ND o a Hans mid Hlt) as Hlt'.
       destruct (N.eqb_spec left (mid + 1)); [lia|].
       destruct (N.ltb_spec (o + dv_len D) (mid + 1)); [lia|].
-      destruct (loop_bisect 32 (mid + 1) (o + dv_len D)) as [l' [E [B1 B2]]]; try lia.
-      { change (2 ^ N.of_nat 32) with two32. rewrite two32_val in *. lia. }
+      destruct (loop_bisect 32 (mid + 1) (o + dv_len D)) as [l' [E [B1 B2]]]; try lia;
+        try (change (2 ^ N.of_nat 32) with two32; rewrite two32_val in *; lia).
       exists l'. split; [exact E | lia].
     - exfalso. pose proof (step_go_lower D ND o a Hans mid (or_introl Hgt)). lia.
   Qed.
